@@ -212,6 +212,18 @@ pub fn run(seed: u64, thorough: bool) {
         put32(&mut p1, 0, 1);
         emit(t.shape.hash, child_pk, &s, &p1, "chain_truncated_msg_is_child_key_L1_key", Some(true), 0.3);
         emit(t.shape.hash, child_pk, &s, &t.pk, "chain_truncated_msg_is_child_key", Some(false), 0.3);
+        // the first signed public key replicated k times: exactly MAX-1, MAX, MAX+1 well-formed entries
+        for k in 1..=9u32 {
+            let spk = &t.sig[4..4 + lms_sig_len + pk_len];
+            let mut s = k.to_be_bytes().to_vec();
+            for _ in 0..k {
+                s.extend_from_slice(spk);
+            }
+            s.extend_from_slice(&t.sig[4 + lms_sig_len + pk_len..]);
+            let mut p = t.pk.clone();
+            put32(&mut p, 0, k + 1);
+            emit(t.shape.hash, &t.msg, &s, &p, "replicated_signed_public_key", Some(levels == 2 && k == 1), 0.4);
+        }
         // the tail under the child key with the root's level count
         let mut tail = (levels - 2).to_be_bytes().to_vec();
         tail.extend_from_slice(&t.sig[4 + lms_sig_len + pk_len..]);
